@@ -6,6 +6,7 @@ import Sfv.Driver.Sexp
 import Sfv.Driver.Nav
 import Sfv.Driver.Io
 import Sfv.Driver.CryptoIo
+import Sfv.Driver.AbiIo
 import Sfv.Model.Container
 import Sfv.Model.Evolve
 import Sfv.Model.SchemaDiff
@@ -154,6 +155,22 @@ def step (st : DState) (line : String) : DState × String :=
       match wsaveRequest ops log with
       | some r => (st, r)
       | none => (st, "(bad-op wsave)")
+    | .list [.atom "abicall", .atom ti, .atom tj, .atom i, .atom j, .list args, .list rets] =>
+      -- a call from interface version i to an implementation of version j: every value crosses the boundary
+      -- in the format of version min(i, j)
+      match st.env.lookup ti, st.env.lookup tj, i.toNat?, j.toNat?, args.mapM parseV, rets.mapM parseV with
+      | some tyI, some tyJ, some i, some j, some args, some rets =>
+        let k := min i j
+        let xfer (w r : Ty) (x : V) : String :=
+          match save w k x with
+          | .ok bs =>
+            match load st.cfg zooConv r k bs with
+            | .ok (v, rest) => if rest.isEmpty then showTV r v else "(trailing " ++ toString rest.length ++ ")"
+            | .error f => showFail f
+          | .panic f => "(panic " ++ showSaveFail f ++ ")"
+          | .unencodable => "(unenc)"
+        (st, "(ok (" ++ " ".intercalate (args.map (xfer tyI tyJ)) ++ ") (" ++ " ".intercalate (rets.map (xfer tyJ tyI)) ++ "))")
+      | _, _, _, _, _, _ => (st, "(bad-op abicall)")
     | .list [.atom "ext", .atom writer, .atom reader, .atom ver] =>
       -- hypothesis of c03_upgrade / c18_downgrade: everything the writer's grammar at `ver` encodes is
       -- encoded identically by the reader's grammar at `ver`
@@ -239,7 +256,13 @@ def step (st : DState) (line : String) : DState × String :=
       | none =>
         match decstreamRequest sx with
         | some r => (st, r)
-        | none => (st, "(bad-op unknown)")
+        | none =>
+          match connectRequest st.cfg sx with
+          | some r => (st, r)
+          | none =>
+            match ledgerRequest st.cfg sx with
+            | some r => (st, r)
+            | none => (st, "(bad-op unknown)")
 
 partial def loop (h : IO.FS.Stream) (out : IO.FS.Stream) (st : DState) : IO Unit := do
   let line ← h.getLine
